@@ -29,6 +29,8 @@ const (
 	F64 = wasm.ValueTypeF64
 )
 
+const V128 = wasm.ValueTypeV128
+
 var allTypes = []VT{I32, I64, F32, F64}
 
 func TName(t VT) string { return wasm.ValueTypeName(t) }
@@ -144,6 +146,16 @@ func (a *Asm) Mem(name string, opc byte, align, off uint32) {
 	a.T = append(a.T, fmt.Sprintf("%s:%d", name, off))
 }
 
+func (a *Asm) ReturnCall(i uint32) { a.opU("return_call", wasm.OpcodeTailCallReturnCall, i) }
+
+// Vec emits a vector instruction with raw immediate bytes; the token is `vec:<opcode>:<immhex>`.
+func (a *Asm) Vec(opc uint32, imm []byte) {
+	a.B = append(a.B, wasm.OpcodeVecPrefix)
+	a.B = append(a.B, leb128.EncodeUint32(opc)...)
+	a.B = append(a.B, imm...)
+	a.T = append(a.T, fmt.Sprintf("vec:%d:%x", opc, imm))
+}
+
 func (a *Asm) MemCopy() {
 	a.B = append(a.B, wasm.OpcodeMiscPrefix, byte(wasm.OpcodeMiscMemoryCopy), 0, 0)
 	a.T = append(a.T, "memory.copy")
@@ -226,6 +238,57 @@ func init() {
 		t := ty(n[:3])
 		src := ty(n[strings.Index(n, "_f")+1:][:3])
 		convs[t] = append(convs[t], numOp{opc: byte(m), misc: true, params: []VT{src}, result: t})
+	}
+}
+
+// vector instruction tables for the SIMD profile: deterministic ops only (no float arithmetic whose
+// NaN payload is unspecified).
+type vecOp struct {
+	opc  uint32
+	name string
+}
+
+var vecBin, vecUn, vecShift, vecTest []vecOp // (v,v)->v ; v->v ; (v,i32)->v ; v->i32
+type laneOp struct {
+	opc   uint32
+	lanes int
+	t     VT
+}
+
+var vecSplat, vecExtract, vecReplace []laneOp
+
+func init() {
+	for i := 0; i < 256; i++ {
+		n := wasm.VectorInstructionName(wasm.OpcodeVec(i))
+		if n == "" || strings.Contains(n, "load") || strings.Contains(n, "store") || n == "v128.const" || n == "v128.shuffle" {
+			continue
+		}
+		parts := strings.SplitN(n, ".", 2)
+		shape, op := parts[0], parts[1]
+		isF := strings.HasPrefix(shape, "f")
+		lanes := map[string]int{"i8x16": 16, "i16x8": 8, "i32x4": 4, "i64x2": 2, "f32x4": 4, "f64x2": 2}[shape]
+		lt := map[string]VT{"i8x16": I32, "i16x8": I32, "i32x4": I32, "i64x2": I64, "f32x4": F32, "f64x2": F64}[shape]
+		v := vecOp{uint32(i), n}
+		switch {
+		case op == "splat":
+			vecSplat = append(vecSplat, laneOp{uint32(i), lanes, lt})
+		case strings.HasPrefix(op, "extract_lane"):
+			vecExtract = append(vecExtract, laneOp{uint32(i), lanes, lt})
+		case op == "replace_lane":
+			vecReplace = append(vecReplace, laneOp{uint32(i), lanes, lt})
+		case op == "shl" || op == "shr_s" || op == "shr_u":
+			vecShift = append(vecShift, v)
+		case op == "all_true" || op == "any_true" || op == "bitmask":
+			vecTest = append(vecTest, v)
+		case op == "bitselect":
+			// ternary: skipped
+		case isF && (op == "add" || op == "sub" || op == "mul" || op == "div" || op == "min" || op == "max" || op == "sqrt" || op == "ceil" || op == "floor" || op == "trunc" || op == "nearest" || strings.HasPrefix(op, "demote") || strings.HasPrefix(op, "promote")):
+			// NaN payload unspecified: excluded
+		case op == "abs" || op == "neg" || op == "not" || op == "popcnt" || strings.HasPrefix(op, "extend_") || strings.HasPrefix(op, "extadd_") || strings.HasPrefix(op, "trunc_sat") || strings.HasPrefix(op, "convert"):
+			vecUn = append(vecUn, v)
+		default:
+			vecBin = append(vecBin, v)
+		}
 	}
 }
 
@@ -356,6 +419,8 @@ type Config struct {
 	MaxParams, MaxResults        int // 0 = defaults (4, 2)
 	MaxLocals                    int // 0 = default 6
 	Bulk                         bool // memory.copy / memory.fill
+	TailCalls                    bool // return_call (needs experimental.CoreFeaturesTailCall)
+	SIMD                         bool // v128 locals and lane-wise integer ops (outside the Lean fragment)
 }
 
 type fgen struct {
@@ -491,7 +556,12 @@ var loads = []memOp{{"i32.load", wasm.OpcodeI32Load, I32, 2}, {"i64.load", wasm.
 var stores = []memOp{{"i32.store", wasm.OpcodeI32Store, I32, 2}, {"i64.store", wasm.OpcodeI64Store, I64, 3}, {"f32.store", wasm.OpcodeF32Store, F32, 2}, {"f64.store", wasm.OpcodeF64Store, F64, 3},
 	{"i32.store8", wasm.OpcodeI32Store8, I32, 0}, {"i32.store16", wasm.OpcodeI32Store16, I32, 1}, {"i64.store8", wasm.OpcodeI64Store8, I64, 0}, {"i64.store16", wasm.OpcodeI64Store16, I64, 1}, {"i64.store32", wasm.OpcodeI64Store32, I64, 2}}
 
-func (g *fgen) ok(t VT) bool { return g.cfg.Floats || t == I32 || t == I64 }
+func (g *fgen) ok(t VT) bool {
+	if t == V128 {
+		return g.cfg.SIMD
+	}
+	return g.cfg.Floats || t == I32 || t == I64
+}
 
 // callable functions returning exactly [t] (or anything when t == 0): imports and earlier or later
 // functions alike (recursion is bounded by the fuel).
@@ -522,9 +592,37 @@ func (g *fgen) typeOfFunc(i uint32) FuncType {
 // expr pushes one value of type t.
 func (g *fgen) expr(t VT, depth int) {
 	r := g.r
+	if t == V128 {
+		g.vexpr(depth)
+		return
+	}
 	if depth >= g.cfg.MaxDepth {
 		g.leaf(t)
 		return
+	}
+	if g.cfg.SIMD && r.Intn(12) == 0 {
+		// a scalar out of a vector
+		if t == I32 && r.Intn(2) == 0 {
+			op := vecTest[r.Intn(len(vecTest))]
+			g.vexpr(depth + 1)
+			g.a.Vec(op.opc, nil)
+			return
+		}
+		var cands []laneOp
+		for _, e := range vecExtract {
+			if e.t == t {
+				cands = append(cands, e)
+			}
+		}
+		if len(cands) > 0 {
+			e := cands[r.Intn(len(cands))]
+			g.vexpr(depth + 1)
+			g.a.Vec(e.opc, []byte{byte(r.Intn(e.lanes))})
+			if t == F32 || t == F64 {
+				g.canon(t)
+			}
+			return
+		}
 	}
 	switch r.Intn(16) {
 	case 0, 1:
@@ -701,7 +799,7 @@ func (g *fgen) stmt(depth int) {
 		}
 		return
 	}
-	switch r.Intn(17) {
+	switch r.Intn(19) {
 	case 0, 1, 2:
 		if ls := g.localsOf(t); len(ls) > 0 {
 			g.expr(t, depth+1)
@@ -835,6 +933,37 @@ func (g *fgen) stmt(depth int) {
 		}
 	case 13:
 		g.pressure(depth)
+	case 15:
+		if g.cfg.SIMD {
+			if ls := g.localsOf(V128); len(ls) > 0 && r.Intn(2) == 0 {
+				g.vexpr(depth + 1)
+				g.a.LocalSet(ls[r.Intn(len(ls))])
+			} else if g.m.HasMem {
+				g.expr(I32, depth+1)
+				g.a.I32Const(0xfff0)
+				g.a.Num(wasm.OpcodeI32And)
+				g.vexpr(depth + 1)
+				g.a.Vec(uint32(wasm.OpcodeVecV128Store), append(leb128.EncodeUint32(0), leb128.EncodeUint32(uint32(r.Intn(32)))...))
+			}
+		}
+	case 16:
+		if g.cfg.TailCalls {
+			// conditional tail call to a function with the same result types
+			cs := g.callees(g.results)
+			if len(cs) == 0 {
+				return
+			}
+			f := cs[r.Intn(len(cs))]
+			g.expr(I32, depth+1)
+			g.a.If(0, false)
+			g.labels = append(g.labels, labelInfo{})
+			for _, p := range g.typeOfFunc(f).Params {
+				g.expr(p, depth+1)
+			}
+			g.a.ReturnCall(f)
+			g.labels = g.labels[:len(g.labels)-1]
+			g.a.End()
+		}
 	case 14:
 		if !g.m.HasMem || !g.cfg.Bulk {
 			return
@@ -884,6 +1013,75 @@ func (g *fgen) bulkLen() {
 	default:
 		g.a.I32Const(uint32(g.r.Intn(70)))
 	}
+}
+
+// vexpr pushes one v128 value.
+func (g *fgen) vexpr(depth int) {
+	r := g.r
+	if depth >= g.cfg.MaxDepth+1 {
+		g.vleaf()
+		return
+	}
+	switch r.Intn(9) {
+	case 0, 1:
+		g.vleaf()
+	case 2, 3, 4:
+		op := vecBin[r.Intn(len(vecBin))]
+		g.vexpr(depth + 1)
+		g.vexpr(depth + 1)
+		g.a.Vec(op.opc, nil)
+	case 5:
+		op := vecUn[r.Intn(len(vecUn))]
+		g.vexpr(depth + 1)
+		g.a.Vec(op.opc, nil)
+	case 6:
+		op := vecShift[r.Intn(len(vecShift))]
+		g.vexpr(depth + 1)
+		g.expr(I32, depth+1)
+		g.a.Vec(op.opc, nil)
+	case 7:
+		sp := vecSplat[r.Intn(len(vecSplat))]
+		if !g.ok(sp.t) {
+			g.vleaf()
+			return
+		}
+		g.expr(sp.t, depth+1)
+		g.a.Vec(sp.opc, nil)
+	default:
+		rp := vecReplace[r.Intn(len(vecReplace))]
+		if !g.ok(rp.t) {
+			g.vleaf()
+			return
+		}
+		g.vexpr(depth + 1)
+		g.expr(rp.t, depth+1)
+		g.a.Vec(rp.opc, []byte{byte(r.Intn(rp.lanes))})
+	}
+}
+
+func (g *fgen) vleaf() {
+	r := g.r
+	if ls := g.localsOf(V128); len(ls) > 0 && r.Intn(2) == 0 {
+		g.a.LocalGet(ls[r.Intn(len(ls))])
+		return
+	}
+	if g.m.HasMem && r.Intn(3) == 0 {
+		g.expr(I32, g.cfg.MaxDepth)
+		g.a.I32Const(0xfff0)
+		g.a.Num(wasm.OpcodeI32And)
+		g.a.Vec(uint32(wasm.OpcodeVecV128Load), append(leb128.EncodeUint32(0), leb128.EncodeUint32(uint32(r.Intn(32)))...))
+		return
+	}
+	imm := make([]byte, 16)
+	if r.Intn(2) == 0 {
+		r.Read(imm)
+	} else {
+		pat := []byte{0, 1, 0x7f, 0x80, 0xff}
+		for i := range imm {
+			imm[i] = pat[r.Intn(len(pat))]
+		}
+	}
+	g.a.Vec(uint32(wasm.OpcodeVecV128Const), imm)
 }
 
 // pressure keeps many values live across a call: fill locals, call, then fold them all.
@@ -1024,6 +1222,11 @@ func Generate(r *rand.Rand, cfg Config) *Module {
 		var decl []VT
 		for k := r.Intn(maxL + 1); k > 0; k-- {
 			decl = append(decl, ts[r.Intn(len(ts))])
+		}
+		if cfg.SIMD {
+			for k := 1 + r.Intn(4); k > 0; k-- {
+				decl = append(decl, V128)
+			}
 		}
 		decl = append(decl, I32, I32)           // loop counters
 		decl = append(decl, I32, I64, F32, F64) // scratch
